@@ -15,12 +15,38 @@ import (
 
 var engineOnce sync.Once
 var engineDir string
+var engineKeep bool // data dir chosen by the parent (VERIF_DATA_DIR): never removed by this process
 
 // bootEngine initialises the in-process siglens engine once per process, with the production
 // query pipeline (the testing config leaves it off), in a fresh data dir.
 func bootEngine() string {
 	engineOnce.Do(func() {
-		dir, err := os.MkdirTemp("", "verifeng")
+		var dir string
+		var err error
+		if d := os.Getenv("VERIF_DATA_DIR"); d != "" {
+			// crash/restart suites (C07): the PARENT chooses the data dir so that a second process can be
+			// started on it; it is kept on exit, and the components are initialised in the order of
+			// cmd/startup (InitVTable, then the ingest server's InitWriterNode, then the query server's
+			// InitQueryNode, which is what reads segmeta.json and adopts segment dirs that only have a .sfm)
+			if err = os.MkdirAll(d, 0o755); err != nil {
+				panic(err)
+			}
+			engineDir = d
+			engineKeep = true
+			config.InitializeTestingConfig(d + "/")
+			config.SetNewQueryPipelineEnabled(true)
+			limit.InitMemoryLimiter()
+			if err := vtable.InitVTable(serverutils.GetMyIds); err != nil {
+				panic(err)
+			}
+			writer.InitWriterNode()
+			if err := query.InitQueryNode(serverutils.GetMyIds, serverutils.ExtractKibanaRequests); err != nil {
+				panic(err)
+			}
+			go query.PullQueriesToRun(context.Background())
+			return
+		}
+		dir, err = os.MkdirTemp("", "verifeng")
 		if err != nil {
 			panic(err)
 		}
@@ -41,7 +67,7 @@ func bootEngine() string {
 }
 
 func cleanupEngine() {
-	if engineDir != "" {
+	if engineDir != "" && !engineKeep {
 		os.RemoveAll(engineDir)
 	}
 }
